@@ -15,7 +15,12 @@
     values (for a stateful scanner: the same state evolution, rejected tokens
     included), the same token spans, and `parse_span` after the k-th delivered
     token = [start of the first delivered token, end of the k-th]
-    (`C04_iter`, `C04_iter_setFilter`; `Spec.delivered`).
+    (`C04_iter`, `C04_iter_setFilter`; `Spec.delivered`);
+  * the list `iter_with_spans()` produces is nothing but the results of calling
+    `next()` again and again until it answers `None`, each `Some(t)` paired with
+    `token_span()` and `parse_span()` read off the lexer right after that call
+    (`C04_iter_is_next_loop`) — so everything above is a statement about
+    sequences of plain `next` calls.
 
   Lean: `Lexer.iterWithSpans` is the model of `lexer.rs` (TephraModel.Lexer);
   the driver checks on generated cases that the real lexer, the model and
@@ -23,6 +28,7 @@
   scanner function, filter table, metrics, length.
 -/
 import TephraProofs.LexIter
+import TephraProofs.LexIterLoop
 
 namespace Tephra.Props
 open Tephra Tephra.Spec
@@ -68,6 +74,41 @@ theorem C04_fuel (E : LexEnv σ τ) (m : Metrics) (len : Nat) (s0 : σ) (ok : Sc
     Spec.rawFrom E.scan m fuel s0 Pos.zero = Spec.rawFrom E.scan m (len + 1) s0 Pos.zero :=
   LexIter.rawFrom_fuel ok _ _ _ _ (by omega) (by omega)
 
+/-- `iter_with_spans` is the `next` loop.  `LexIter.nextLoopList E fuel lx` is the plain loop, with
+no side conditions: call `lx.next`; on `none` stop and return what was recorded (and the lexer as
+that last call left it); on `some t` record `(t, tokenSpan, parseSpan)` of the lexer as the call
+left it and repeat from that lexer; answer `none` only if `fuel` calls were not enough to see `next`
+answer `none`.  Statement: under the scanner contract, for a fresh lexer — without filter, or with a
+filter installed by `with_filter(f)` or by `set_filter(f)` — and any fuel of at least `len + 1`
+(every delivered token is non-empty, so `len + 1` calls always suffice), the plain loop terminates
+by a `none` answer of `next` and returns exactly the pair (list, final lexer) that
+`Lexer.iterWithSpans` returns.  (The model's `iterWithSpans` additionally stops if a `next` call
+fails to move the cursor forward inside the text; that guard exists for its termination proof and,
+by this theorem, never fires.) -/
+theorem C04_iter_is_next_loop (E : LexEnv σ τ) (m : Metrics) (len : Nat) (s0 : σ)
+    (ok : ScanOK E m len) (f : Option Nat) (fuel : Nat) (hfuel : len + 1 ≤ fuel) :
+    LexIter.nextLoopList E fuel (Lexer.new s0 m len)
+      = some ((Lexer.new s0 m len).iterWithSpans E) ∧
+    LexIter.nextLoopList E fuel ((Lexer.new s0 m len).withFilter E f)
+      = some (((Lexer.new s0 m len).withFilter E f).iterWithSpans E) ∧
+    LexIter.nextLoopList E fuel ((Lexer.new s0 m len).setFilter E f).2
+      = some ((((Lexer.new s0 m len).setFilter E f).2).iterWithSpans E) :=
+  ⟨LexIter.iter_is_next_loop ok _ (LexIter.inv_new s0) fuel hfuel,
+   LexIter.iter_is_next_loop ok _ (LexIter.inv_withFilter ok s0 f) fuel hfuel,
+   LexIter.iter_is_next_loop ok _ (LexIter.inv_setFilter ok s0 f) fuel hfuel⟩
+
+/-- Consequence: the sequence of `(next, token_span, parse_span)` results of the plain `next` loop
+on a fresh lexer with filter `f` is `Spec.delivered keep raw`. -/
+theorem C04_next_loop_delivered (E : LexEnv σ τ) (m : Metrics) (len : Nat) (s0 : σ)
+    (ok : ScanOK E m len) (f : Option Nat) (fuel : Nat) (hfuel : len + 1 ≤ fuel) :
+    let raw := Spec.rawFrom E.scan m (len + 1) s0 Pos.zero
+    let keep : τ → Bool := fun t => match f with | none => true | some k => E.passes k t
+    (LexIter.nextLoopList E fuel ((Lexer.new s0 m len).withFilter E f)).map (·.1)
+      = some (Spec.delivered keep raw) := by
+  intro raw keep
+  rw [(C04_iter_is_next_loop E m len s0 ok f fuel hfuel).2.1, Option.map_some]
+  exact congrArg some (C04_iter_withFilter E m len s0 ok f)
+
 /-! Non-vacuity: a stateful scanner over a 7-byte text (tokens of 1, 2, 3 bytes,
 then one more byte; the state counts tokens and is the token value) satisfies the
 contract, and with the filter "odd tokens only" the lexer delivers tokens 1 and 3
@@ -96,6 +137,17 @@ example :
       [(1, ⟨⟨1, 0, 1⟩, ⟨3, 0, 3⟩⟩, ⟨⟨1, 0, 1⟩, ⟨3, 0, 3⟩⟩),
        (3, ⟨⟨6, 0, 6⟩, ⟨7, 0, 7⟩⟩, ⟨⟨1, 0, 1⟩, ⟨7, 0, 7⟩⟩)] := by
   have := C04_iter exEnv ⟨.lf, 4⟩ 7 0 (exEnv_ok _) (some 0)
+  simp only at this
+  rw [this]
+  decide
+
+/-- Non-vacuity of `C04_iter_is_next_loop`: on the same lexer the plain `next` loop with 8 = 7 + 1
+calls allowed ends by `None` and has recorded two items. -/
+example :
+    (LexIter.nextLoopList exEnv 8 ((Lexer.new 0 ⟨.lf, 4⟩ 7).withFilter exEnv (some 0))).map (·.1) =
+      some [(1, ⟨⟨1, 0, 1⟩, ⟨3, 0, 3⟩⟩, ⟨⟨1, 0, 1⟩, ⟨3, 0, 3⟩⟩),
+            (3, ⟨⟨6, 0, 6⟩, ⟨7, 0, 7⟩⟩, ⟨⟨1, 0, 1⟩, ⟨7, 0, 7⟩⟩)] := by
+  have := C04_next_loop_delivered exEnv ⟨.lf, 4⟩ 7 0 (exEnv_ok _) (some 0) 8 (by omega)
   simp only at this
   rw [this]
   decide
